@@ -155,22 +155,27 @@ fn run(hist: &[Api], faults: &[(usize, When)]) -> Run {
   };
   ctl.lock().enabled = false;
   drop(writer);
-  let fin: Option<Vec<(String, i64)>> = std::panic::catch_unwind(std::panic::AssertUnwindSafe(|| {
-    let mut w = idx.writer().ok()?;
-    w.commit().ok()?;
-    drop(w);
-    let a = slv::fixtures::contents(&idx).ok()?;
-    // and the same through a reopen
+  // final healthy writer(); commit(): what the running index shows and what a reopen shows
+  let fin: (Option<Vec<(String, i64)>>, Option<Vec<(String, i64)>>) = std::panic::catch_unwind(std::panic::AssertUnwindSafe(|| {
+    let committed = (|| {
+      let mut w = idx.writer().ok()?;
+      w.commit().ok()?;
+      Some(())
+    })();
+    if committed.is_none() {
+      return (None, None);
+    }
+    let a = slv::fixtures::contents(&idx).ok();
     let mut o = slv::fixtures::opts(&root, StorageType::InMemory);
     o.create_if_missing = false;
     let st: Arc<dyn Storage> = storage.clone();
-    let i2 = Index::open_with_storage(o, st).ok()?;
-    let b = slv::fixtures::contents(&i2).ok()?;
-    if a == b { Some(a) } else { None }
+    let b = Index::open_with_storage(o, st).ok().and_then(|i2| slv::fixtures::contents(&i2).ok());
+    (a, b)
   }))
-  .unwrap_or(None);
-  let final_lit = match &fin { Some(c) => format!("(Some {})", lit_contents(c)), None => "None".into() };
-  Run { events, events_json, final_lit, final_json: serde_json::json!(fin), calls, fired, log }
+  .unwrap_or((None, None));
+  let olit = |x: &Option<Vec<(String, i64)>>| match x { Some(c) => format!("(Some {})", lit_contents(c)), None => "None".into() };
+  let final_lit = format!("({}, {})", olit(&fin.0), olit(&fin.1));
+  Run { events, events_json, final_lit, final_json: serde_json::json!({"running": fin.0, "reopened": fin.1}), calls, fired, log }
 }
 
 fn main() {
